@@ -35,6 +35,18 @@ func BechOf(w *mc.World, name string) string {
 	if strings.HasPrefix(name, "!") { // literal (malformed) address text
 		return strings.TrimPrefix(name, "!")
 	}
+	if strings.Contains(name, "~") { // a well-formed address padded with white space where the ~ stands: malformed
+		pad := map[bool]string{true: "\t", false: " "}[strings.Contains(name, "~~")]
+		core := strings.ReplaceAll(name, "~", "")
+		b := AddrOf(w, core).String()
+		if strings.HasPrefix(name, "~") {
+			b = pad + b
+		}
+		if strings.HasSuffix(name, "~") {
+			b = b + pad
+		}
+		return b
+	}
 	return AddrOf(w, name).String()
 }
 
